@@ -14,6 +14,27 @@ BASELINE_OFF = (
 
 # id -> (level, technique, level text, level note, design ref)
 T = {
+    "C09": (
+        "model_checking",
+        "exhaustive lattice of affine parameters with exact oracles + explicit-state BFS over live (correction, image A, image B) triples, exact Fraction reference at every destination voxel centre",
+        "Affine maps: all scalings x angle tuples (3-D: every triple incl. several non-zero) x translations x point forms, round trips in both orders, orthonormality, det 1, "
+        "documented action. Corrections: every whole-voxel shift in [-n-1, n+1] per axis (incl. larger than the image), identity and quarter turns, for coordinate / voxel / voxel-centre "
+        "parametrisations, set directly and fitted, through TransformationCorrection and CoordinateTransformation with equal and different destination systems; per object a BFS over "
+        "{apply to A, apply with overwrite, apply to B, raw array} to a fixpoint plus all sequences of length <= 2 (thorough 3); the output must equal the exactly computed shift / rotation "
+        "and a re-used object must behave like a fresh one.",
+        "Trusted: exact rational reference in props/c09.py; fitted maps held to the oracle only if the fit lands within 1/4 voxel. Corrections use scaling 1.",
+        "DESIGN.md §3 C09",
+    ),
+    "C17": (
+        "model_checking",
+        "explicit-state search over a pool of live operands with content + alias-signature states: all chains of registry calls (length 2, thorough 3) and an abstract-state BFS to a fixpoint; full-content comparison of every argument and of the RNG state after every call",
+        "Registry of 163 call forms in 62 groups (arithmetic, comparisons, conversions, extraction, constructors with caller-owned containers, weight, superpose, stack, resize, "
+        "reduction, models, integration, distances, Patches, ConcentrationAnalysis) applied to a pool of images of every kind and to the previous result. After every transition every "
+        "pool object, every argument and the NumPy/Python RNG state must be content-identical to before, and + - * must equal raw-array arithmetic. Chains of length 2 are enumerated "
+        "completely; an abstract graph (class, flags, dtype, colour space, time form, alias signature) is searched to a fixpoint with every (node, enabled form) pair executed on a live object.",
+        "Trusted: pickle-based content comparison confirmed by mc.canon.digest before reporting. Soundness of the abstraction: whether a call can write into an operand depends on which containers it receives (kind + alias signature), not on pixel values. OpenCV's RNG cannot be observed.",
+        "DESIGN.md §3 C17",
+    ),
     "C13": (
         "exploration",
         "exhaustive enumeration of baseline/probe kinds x dtypes x stage presence x stage order x diff options with recording stubs and with the real stages; all ordered 2-call histories on one object",
